@@ -4,8 +4,11 @@ grammar's printer, record generators and the three-step run protocol.
 python case: ( mode pattern rec mdc thread ast envsel )
   mode    1 construct + encode, 2 construct only, 4 = as 1 but the harness first encodes the
           pid/thread formatters, then forks and encodes in the child (the model sees mode 1),
-          5 = as 1 but the harness process first switches its time zone (TZ variable; the zone stays
-          switched for the later cases of that process; the date oracle is rendered after the switch),
+          5 = as 1 but the process's time zone is switched AFTER the encoder was built and before it is used (TZ
+          variable; the zone stays switched for the later cases of that process; the date oracle is rendered after
+          the switch),
+          9 = as 1 but on the same thread three records whose message FAILS half-way inside aligned / truncated /
+          highlighted fields were encoded first (the failures caught): nothing of them may show in the observed record,
           6 = as 1 but the message argument's Display impl itself encodes another record through a `{m}`
           pattern on the same thread before writing its text (re-entrant encode; both must be unaffected)
   pattern code points
@@ -292,7 +295,7 @@ def model_lines(ctx, cases, lines, impl_lines, keep_junk=False):
         ast = c[5]
         if ast and not keep_junk:
             ast = [ast[0]]
-        out.append(vc.show([1 if c[0] in (4, 5, 6) else c[0], c[1], c[2], c[3], c[4], cls, rt, tt, ast]))
+        out.append(vc.show([1 if c[0] in (4, 5, 6, 9) else c[0], c[1], c[2], c[3], c[4], cls, rt, tt, ast]))
     return out
 
 
